@@ -43,6 +43,9 @@ type C16Case struct {
 
 var c16Pieces = []string{"a", "b", " ", "  ", "\n", "\r\n", "\r", "\t", "&", "<", ">", "\"", "'", "&lt;", "&amp;", "&#39;", "<b>", "</b>", "<a href=\"x\">", "é", "ü", "日本語", "𝄞", "\U0010FFFF", "%", "+", "/", "?", "=", "#", "~", "-", "_", ".", "!", "*", "(", ")", "\\", " ", " ", "</script>", "\x00", "\x01", "\x7f", "word", "averyveryverylongwordwithoutanyspaces", "%41", "%zz", "{", "}", ";", ":", "@", ",", "$", "[", "]", "|", "^", "`"}
 
+var c16Encoded = []string{"[]", "{}", "[1,2,3]", `{"admin":true}`, `"quoted"`, "null", "true", "false", "123", "-1.5e3", `["a","b"]`, `{"a":{"b":[null]}}`, " [1] ", "[1,]", `\"`,
+	"%20", "a%2Fb", "%E2%82%AC", "%", "\\x3c", "\\u0041", "\\n", "\\", "\\'", "<br>", "<br/>", "a<br>b", "<wbr>", "abc<wbr>def", "...", "a...", "…", "&hellip;", "&#10;", "NaN", "undefined", "0x1F", "1e400"}
+
 func genC16(t *rapid.T) C16Case {
 	c := C16Case{Dir: rapid.SampledFrom([]string{"escapeUri", "escapeJsString", "json", "changeNewlineToBr", "insertWordBreaks", "insertWordBreaks", "truncate", "truncate"}).Draw(t, "dir")}
 	c.JS = rapid.IntRange(0, 2).Draw(t, "js") == 0
@@ -55,6 +58,12 @@ func genC16(t *rapid.T) C16Case {
 	case 2:
 		if !c.JS {
 			b.Write(rapid.SliceOfN(rapid.Byte(), 0, 12).Draw(t, "bytes")) // any bytes, incl. invalid UTF-8
+		}
+	case 3:
+		// a value that already looks like the result of an encoding (it is still just a string)
+		b.WriteString(rapid.SampledFrom(c16Encoded).Draw(t, "encoded"))
+		if rapid.IntRange(0, 3).Draw(t, "encodedTail") == 0 {
+			b.WriteString(rapid.SampledFrom(c16Encoded).Draw(t, "encoded2"))
 		}
 	default:
 		for i, n := 0, rapid.IntRange(0, 10).Draw(t, "n"); i < n; i++ {
